@@ -58,9 +58,9 @@ def gen_cases(engine, rng, tier):
         cfg = 'relay=%s;ip=%s;databytes=0;qq=ok,ok,ok,ok' % (rng.choice(['none', 'none', 'listed']), rng.choice(['v4', 'v4', 'v6']))
         chunks = [rng.choice([b'HELO c.example.net\r\n', b'EHLO c.example.net\r\n', b'HELO x.example.com\r\n'])]
         for _ in range(rng.choice([1, 1, 2, 3])):
-            chunks.append(session_gen.mail(rng, rng.choice(['ok', 'ok', 'bounce', 'size', 'body'])))
+            chunks.append(session_gen.mail(rng, rng.choice(['ok', 'ok', 'bounce', 'size', 'body', 'mixed'])))
             for _ in range(rng.choice([1, 2, 3, 5])):
-                chunks.append(session_gen.rcpt(rng, rng.choice(['ok', 'ok', 'ok', 'no', 'remote', 'literal', 'syntax'])))
+                chunks.append(session_gen.rcpt(rng, rng.choice(['ok', 'ok', 'ok', 'no', 'remote', 'literal', 'syntax', 'mixed', 'mixed'])))
             chunks.append(b'DATA\r\n'); chunks.append(data_body(rng))
         out.append(session_gen.case(cfg, chunks))
     return out + session_gen.gen(rng, 100 if tier == 'quick' else 2000)
